@@ -127,7 +127,7 @@ def build(repo):
                requires=['INV_model(self)'],
                modifies=['self.points', 'self.xbase', 'self.sl', 'self.su', 'self.factorisation_current', 'self.model_const', 'G.geom'],
                ghost_return=[('G.geom', 'G.geom + 1')],
-               loops={0: ['forall(j, 0, i_, self.points[j] == vsub(old(self.points[j]), xbase_shift))',
+               loops={'for:k#0': ['forall(j, 0, i_, self.points[j] == vsub(old(self.points[j]), xbase_shift))',
                           'forall(j, i_, self.num_pts, self.points[j] == old(self.points[j]))',
                           'len(self.points) == old(len(self.points))']},
                ensures=['every stored point shifted:: forall(j, 0, npt(self), self.points[j] == vsub(old(self.points[j]), xbase_shift))',
